@@ -1869,3 +1869,8 @@ MA('C08', 'translation merges its linear term into a quadratic perturbation and 
    'return FunctionalQuadraticPerturb(self.functional.convex_conj, linear_term=self.translation)',
    'cc = self.functional.convex_conj\nif isinstance(cc, FunctionalQuadraticPerturb):\n    return FunctionalQuadraticPerturb(cc.functional, linear_term=cc.linear_term + self.translation, constant=cc.constant)\nreturn FunctionalQuadraticPerturb(cc, linear_term=self.translation)',
    'translated')
+MA('C05', 'pointwise inner product returns before weighting a single component',
+   'odl/operator/tensor_ops.py', 'PointwiseInner._call',
+   'if self.is_weighted:...',
+   'if self.is_weighted and len(self.domain) > 1:\n    out *= self.weights[0]',
+   'length 1')
